@@ -21,6 +21,7 @@ import (
 	"os"
 	"strings"
 	"sync"
+	"time"
 
 	fingerproxy "github.com/wi1dcard/fingerproxy"
 	fp "github.com/wi1dcard/fingerproxy/pkg/fingerprint"
@@ -37,10 +38,12 @@ type plan struct {
 }
 
 var (
-	mu       sync.Mutex
-	armed    *plan
-	taken    bool   // the armed plan's connection has been accepted
-	caseAddr string // remote address of the case connection
+	mu        sync.Mutex
+	armed     *plan
+	taken     bool          // the armed plan's connection has been accepted
+	caseAddr  string        // remote address of the case connection
+	caseDone  chan struct{} // closed when the case connection's Close() was called by the server
+	closedCbs int           // ConnState(StateClosed) callbacks seen for the case connection
 )
 
 // shouldPanic reports whether the named callback must panic now.
@@ -48,6 +51,13 @@ func shouldPanic(name string) bool {
 	mu.Lock()
 	defer mu.Unlock()
 	return armed != nil && taken && armed.Panic == name
+}
+
+func victimArgs() []string {
+	if os.Getenv("VICTIM_TIMEOUTS") == "short" { // read/write timers that fire while a stream is still open
+		return []string{"-verbose", "-timeout-tls-handshake=8s", "-timeout-http-idle=8s", "-timeout-http-read=700ms", "-timeout-http-write=900ms"}
+	}
+	return []string{"-verbose", "-timeout-tls-handshake=8s", "-timeout-http-idle=8s", "-timeout-http-read=8s"}
 }
 
 type panicWriter struct{ w io.Writer }
@@ -84,7 +94,7 @@ func main() {
 		return inj
 	}
 	px, err := rig.StartProxy(be.URL, rig.ProxyOpts{
-		Args: []string{"-verbose", "-timeout-tls-handshake=8s", "-timeout-http-idle=8s", "-timeout-http-read=8s"},
+		Args: victimArgs(),
 		Listener: func(l net.Listener) net.Listener {
 			al := rig.NewAcctListener(l)
 			al.PlanFor = func(i int, c net.Conn) *rig.FaultPlan {
@@ -93,6 +103,9 @@ func main() {
 				if armed != nil && !taken {
 					taken = true
 					caseAddr = c.RemoteAddr().String()
+					if ac, ok := c.(*rig.AcctConn); ok {
+						caseDone = ac.Done
+					}
 					return armed.Fault
 				}
 				return nil
@@ -121,6 +134,13 @@ func main() {
 				return nil
 			}
 			app.Server.HTTPServer.ConnState = func(c net.Conn, st http.ConnState) {
+				if st == http.StateClosed {
+					mu.Lock()
+					if c.RemoteAddr() != nil && c.RemoteAddr().String() == caseAddr {
+						closedCbs++
+					}
+					mu.Unlock()
+				}
 				if shouldPanic("ConnState:" + st.String()) {
 					panic("injected panic in the ConnState hook (" + st.String() + ")")
 				}
@@ -168,12 +188,32 @@ func main() {
 				continue
 			}
 			mu.Lock()
-			armed, taken, caseAddr = &p, false, ""
+			armed, taken, caseAddr, caseDone, closedCbs = &p, false, "", nil, 0
 			mu.Unlock()
 			fmt.Println("armed")
 		case line == "disarm":
+			// the plan stays armed until the server side has finished with the case connection
+			// (its Close() was called and, for HTTP/1.1, the StateClosed callback has run)
 			mu.Lock()
-			armed, taken = nil, false
+			done, was := caseDone, taken
+			mu.Unlock()
+			if was && done != nil {
+				select {
+				case <-done:
+				case <-time.After(4 * time.Second):
+				}
+				for i := 0; i < 40; i++ {
+					mu.Lock()
+					n := closedCbs
+					mu.Unlock()
+					if n > 0 {
+						break
+					}
+					time.Sleep(5 * time.Millisecond)
+				}
+			}
+			mu.Lock()
+			armed, taken, caseDone, closedCbs = nil, false, nil, 0
 			mu.Unlock()
 			fmt.Printf("disarmed %d\n", be.Count())
 		case line == "quit":
